@@ -188,6 +188,20 @@ def r1(chk, prog):
         toks = [c for c in f.calls() if callee_is(c, 'Tokenizer::Tokenizer')]
         ok = bool(toks) and all(field_name(call_args(c)[1]) == 'mListSep' for c in toks)
         chk.check(ok, 'R1', f.name, 'the value list is split at the configured list separator [%s]' % tag, f.loc())
+        # (e) ... and empty list elements are dropped, by every destination kind alike ("a,,b" and "a,b" are the
+        #     same fold): the tokenizer is built by the constructor that does not keep empty tokens
+        for c in toks:
+            g = prog.by_key.get(c.get('ckey'), [None])[0]
+            keeps = None
+            if g is not None:
+                keeps = any(x.get('k') == 'DeclRefExpr' and (x.get('ref', {}).get('q') or '').endswith('keep_empty_tokens')
+                            for r_ in g.roots() for x in walk(r_))
+            if keeps is None:
+                raise AnalysisBroken('Tokenizer constructor used in %s is not available' % f.key)
+            chk.check(not keeps, 'R1', f.name, 'empty list elements are dropped (same tokenizer policy in every '
+                      'list-splitting destination) [%s]' % tag, f.loc(c),
+                      'this destination builds its tokenizer with boost::keep_empty_tokens: "a,,b" yields an empty '
+                      'element here and two elements everywhere else')
 
 
 def always_throws(f):
